@@ -467,7 +467,13 @@ class SymDatetime:
     def date(self): return SymDatetime(self.o, None, True)
     def time(self): return SymTime(self.us)
     def replace(self, **kw):
-        raise Unsupported('datetime.replace on symbolic datetime')
+        if kw.get('tzinfo', None) is not None: raise Unsupported('tz-aware symbolic datetime')
+        kw.pop('tzinfo', None)
+        if not kw: return self
+        from . import shims
+        f = dict(year = self.year, month = self.month, day = self.day, hour = self.hour, minute = self.minute, second = self.second, microsecond = self.microsecond)
+        f.update(kw)
+        return shims.shim_datetime(f['year'], f['month'], f['day'], f['hour'], f['minute'], f['second'], f['microsecond'])
     def _norm(self, o, us):
         if self.isdate: raise Unsupported('date +/- intraday')
         return SymDatetime(z3.simplify(o + us / US_DAY), z3.simplify(us % US_DAY))
@@ -534,11 +540,15 @@ class SymTime:
 
 # --------------------------------------------------------------------------- the context: one path of one obligation
 
+class _Values(dict):
+    """model used for a concrete replay; a variable the model does not bind (witness taken before it was declared) ends the replay"""
+    def __missing__(self, k): raise Infeasible()
+
 class Ctx:
     """mode 'sym': one execution path under a decision prefix.  mode 'conc': concrete replay from `values`."""
     def __init__(self, prefix = (), values = None, fuel = 2000, deadline = None, qtimeout_ms = 8000, seed = 0, known = (), pins = None):
         self.mode = 'conc' if values is not None else 'sym'
-        self.values = values or {}
+        self.values = _Values(values or {})
         self.prefix = list(prefix); self.pos = 0; self.decisions = []
         self.fuel = fuel; self.deadline = deadline
         self.known = set(known); self.pins = pins or {}
@@ -547,14 +557,14 @@ class Ctx:
         self.failures = []        # concrete mode: labels of failed checks; sym mode: (label, model)
         self.checks = 0; self.queries = 0; self.solver_s = 0.0
         self.covered = set(); self.cover_labels = set()
-        self.notes = []; self.civil_cache = {}; self._ext_model = None; self.ext_queries = 0; self.witnesses = {}; self.triples = []
+        self.notes = []; self.civil_cache = {}; self._ext_model = None; self.ext_queries = 0; self.witnesses = {}; self.triples = []; self._model = None; self._dirty = False; self.deferred = []
         if self.mode == 'sym':
             self.solver = z3.Solver()
             self.solver.set('timeout', qtimeout_ms); self.qtimeout_ms = qtimeout_ms
             self.solver.set('random_seed', seed)
     # ---- solver plumbing
     def add(self, *c):
-        if self.mode == 'sym': self.solver.add(*c)
+        if self.mode == 'sym': self.solver.add(*c); self._model = None; self._dirty = True      # the cached model may not satisfy the new constraints
     def _check(self, *extra):
         if self.deadline is not None and time.time() > self.deadline: raise Deadline('time budget exhausted')
         t0 = time.time(); self._ext_model = None
@@ -567,6 +577,11 @@ class Ctx:
             try: r = self.solver.check(*extra)
             finally: self.solver.set('timeout', self.qtimeout_ms)
         self.solver_s += time.time() - t0; self.queries += 1
+        self._model = None
+        if r == z3.sat and not extra: self._dirty = False
+        if r == z3.sat and self._ext_model is None:
+            try: self._model = self.solver.model()
+            except z3.Z3Exception: self._model = None
         return r
     def _external(self, extra):
         """portfolio: z3 gave up inside its time slice -> hand the same query (SMT-LIB2 dump) to the cvc5 binary"""
@@ -612,18 +627,39 @@ class Ctx:
         if z3.is_false(cond): return False
         if len(self.decisions) >= self.fuel: raise FuelExhausted('more than %d branch decisions on one path' % self.fuel)
         if self.pos < len(self.prefix):
-            d = self.prefix[self.pos]; self.decisions.append((d, False))
+            d = self.prefix[self.pos]; self.decisions.append((d, False)); self._model = None
         else:
-            rt = self._check(cond)
-            if rt == z3.unknown: raise SolverUnknown('branch feasibility unknown: %s' % self.solver.reason_unknown())
-            if rt == z3.unsat:
-                d = False; self.decisions.append((d, False))
-            else:
+            hint = None
+            if self._model is not None:
+                try:
+                    v = self._model.eval(cond, model_completion = True)
+                    hint = True if z3.is_true(v) else False if z3.is_false(v) else None
+                except z3.Z3Exception:
+                    hint = None
+            if hint is True:                       # the last model already satisfies cond: only the other side needs a query
+                keep = self._model
                 rf = self._check(z3.Not(cond))
                 if rf == z3.unknown: raise SolverUnknown('branch feasibility unknown: %s' % self.solver.reason_unknown())
-                d = True; self.decisions.append((d, rf == z3.sat))
+                d = True; self.decisions.append((d, rf == z3.sat)); self._model = keep
+            elif hint is False:
+                keep = self._model
+                rt = self._check(cond)
+                if rt == z3.unknown: raise SolverUnknown('branch feasibility unknown: %s' % self.solver.reason_unknown())
+                if rt == z3.sat: d = True; self.decisions.append((d, True))      # _check stored a model of path /\ cond
+                else: d = False; self.decisions.append((d, False)); self._model = keep
+            else:
+                rt = self._check(cond)
+                if rt == z3.unknown: raise SolverUnknown('branch feasibility unknown: %s' % self.solver.reason_unknown())
+                if rt == z3.unsat:
+                    d = False; self.decisions.append((d, False)); self._model = None
+                else:
+                    keep = self._model
+                    rf = self._check(z3.Not(cond))
+                    if rf == z3.unknown: raise SolverUnknown('branch feasibility unknown: %s' % self.solver.reason_unknown())
+                    d = True; self.decisions.append((d, rf == z3.sat)); self._model = keep
         self.pos += 1
         self.solver.add(cond if d else z3.Not(cond))
+        if self.pos > len(self.prefix): self._dirty = False       # the side taken was just shown feasible together with everything asserted so far
         return d
     def concretize_int(self, e, limit = 32):
         """__index__ of a symbolic int: fork over its feasible values (ascending) when there are few"""
@@ -634,11 +670,29 @@ class Ctx:
             if self.branch(e == v): return v
         raise Unsupported('concretisation of a symbolic int with more than %d feasible values' % limit)
     def _min_value(self, e, excluded):
-        o = z3.Optimize(); o.set('timeout', 20000)
-        o.add(self.solver.assertions()); o.add(*[e != v for v in excluded])
-        h = o.minimize(e)
-        if o.check() != z3.sat: raise SolverUnknown('concretize/minimize')
-        return o.model().eval(e, model_completion = True).as_long()
+        """smallest feasible value of e on this path (unique, hence deterministic under re-execution): bisection with plain checks"""
+        r = self._check()
+        if r != z3.sat: raise SolverUnknown('concretize: path not known satisfiable')
+        m = self.solver.model() if self._ext_model is None else None
+        v0 = m.eval(e, model_completion = True).as_long() if m is not None else None
+        if v0 is None: raise SolverUnknown('concretize: no model value')
+        step = 1; lo = v0                       # invariant: some feasible value <= hi = v0; find lo with no feasible value < lo
+        hi = v0
+        while True:
+            r = self._check(e < lo)
+            if r == z3.unknown: raise SolverUnknown('concretize/bisect')
+            if r == z3.unsat: break
+            hi = self.solver.model().eval(e, model_completion = True).as_long() if self._ext_model is None else lo - 1
+            lo = hi - step; step *= 2
+        # now: no feasible value < lo, a feasible value == hi (hi >= lo)
+        while lo < hi:
+            mid = (lo + hi) // 2
+            r = self._check(e <= mid)
+            if r == z3.unknown: raise SolverUnknown('concretize/bisect')
+            if r == z3.sat: hi = min(mid, self.solver.model().eval(e, model_completion = True).as_long() if self._ext_model is None else mid)
+            else: lo = mid + 1
+        self._model = None
+        return lo
     # ---- variables
     def _reg(self, name, kind, terms):
         if name in self.vars: raise AssertionError('duplicate variable ' + name)
@@ -680,7 +734,7 @@ class Ctx:
         values = list(values)
         for v in values[:-1]:
             if self.branch(z == v): return v
-        self.solver.add(z == values[-1])
+        self.solver.add(z == values[-1]); self._model = None
         if self._check() != z3.sat: raise Infeasible()
         return values[-1]
     def pick(self, name, options):
@@ -697,6 +751,33 @@ class Ctx:
         self.add(valid(y, m, d)); o = dfc(y, m, d); self.add(o >= lo, o <= hi)
         t = SymDatetime(o); t._ymd = (y, m, d); self.civil_cache[z3.simplify(o).get_id()] = (z3.simplify(o), t._ymd)
         register_civil(self, t._ymd, o)
+        return t
+    def day_both(self, name, lo = ORD_MIN, hi = ORD_MAX - 1, near = (0, 0), link = True):
+        """a day at midnight carried both as an ordinal variable (weekday arithmetic stays simple) and as civil variables
+        (year, month, day) tied to it; the civil fields of the days  t+i, near[0] <= i <= near[1] (|i| <= 27), are pre-seeded as
+        if-then-else terms over t's civil fields (neighbour lemma, validated by dates_common.neighbour_gate)."""
+        if self.mode == 'conc': return _rdt.datetime.fromordinal(self.values[name])
+        o = z3.Int(name); self._reg(name, 'int', o); self.add(o >= lo, o <= hi)
+        y, m, d = z3.Int(name + '.y'), z3.Int(name + '.m'), z3.Int(name + '.d')
+        # link=False drops the tie between the ordinal and the civil fields: an over-approximation (every weekday is combined with every
+        # valid (year, month, day)), so a proof still covers all real dates; a counterexample is rebuilt from the ordinal alone and must replay.
+        self.add(valid(y, m, d))
+        if link: self.add(dfc(y, m, d) == o)
+        else:
+            self.add(y >= 1900, y <= 2299)
+            self.deferred.append(dfc(y, m, d) == o)      # asserted only when a counterexample has to be made realisable
+        t = SymDatetime(o); t._ymd = (y, m, d); self.civil_cache[o.get_id()] = (o, t._ymd)
+        if link: register_civil(self, t._ymd, o)
+        assert -27 <= near[0] <= 0 <= near[1] <= 27
+        dm = dim(y, m)
+        py = z3.If(m == 1, y - 1, y); pm = z3.If(m == 1, 12, m - 1); pdm = dim(py, pm)
+        ny = z3.If(m == 12, y + 1, y); nm = z3.If(m == 12, 1, m + 1)
+        for i in range(near[0], near[1] + 1):
+            if i == 0: continue
+            oi = z3.simplify(o + i)
+            if i > 0: trip = (z3.If(d + i <= dm, y, ny), z3.If(d + i <= dm, m, nm), z3.If(d + i <= dm, d + i, d + i - dm))
+            else: trip = (z3.If(d + i >= 1, y, py), z3.If(d + i >= 1, m, pm), z3.If(d + i >= 1, d + i, d + i + pdm))
+            self.civil_cache[oi.get_id()] = (oi, tuple(z3.simplify(x) for x in trip))
         return t
     def datetime(self, name, lo = ORD_MIN, hi = ORD_MAX - 1, us_step = 1):
         """arbitrary instant: day ordinal in [lo, hi], microsecond of day a multiple of us_step"""
@@ -715,7 +796,7 @@ class Ctx:
         e = z3.simplify(zb(cond))
         if z3.is_true(e): return
         if z3.is_false(e): raise Infeasible()
-        self.solver.add(e)
+        self.solver.add(e); self._model = None
         r = self._check()
         if r == z3.unsat: raise Infeasible()
         if r == z3.unknown: raise SolverUnknown('assume: ' + self.solver.reason_unknown())
@@ -729,9 +810,16 @@ class Ctx:
             return ok
         e = z3.simplify(zb(cond))
         if z3.is_true(e): return True
+        keep = self._model
         r = self._check(z3.Not(e))
         if r == z3.unsat:
-            self.solver.add(e); return True
+            self.solver.add(e); self._model = keep; return True      # e is implied by the path: the cached model still fits
+        if r == z3.sat and self.deferred:
+            # the model lives in an over-approximation: assert the deferred (exact) constraints and ask again
+            self.solver.add(*self.deferred); self.deferred = []; self._model = None
+            r = self._check(z3.Not(e))
+            if r == z3.unsat:
+                self.solver.add(e); return True
         if r == z3.unknown:
             self.notes.append('unknown at check %s: %s' % (label, self.solver.reason_unknown()))
             raise SolverUnknown('check %s: %s' % (label, self.solver.reason_unknown()))
@@ -755,6 +843,10 @@ class Ctx:
         if label in self.covered: return
         e = z3.simplify(zb(cond))
         if z3.is_false(e): return
+        keep = self._model
+        try: self._cover(label, e)
+        finally: self._model = keep
+    def _cover(self, label, e):
         if z3.is_true(e):
             if self._check() == z3.sat: self.covered.add(label); self.witnesses[label] = self.model_values()
         elif self._check(e) == z3.sat:
@@ -806,7 +898,10 @@ def explore(fn, max_paths = 100000, budget_s = None, fuel = 2000, qtimeout_ms = 
         c = Ctx(prefix, fuel = fuel, deadline = deadline, qtimeout_ms = qtimeout_ms, seed = seed, known = known, pins = pins); CUR = c
         res['paths'] += 1
         try:
-            fn(c); res['ok_paths'] += 1
+            fn(c)
+            if c._dirty:
+                if c._check() == z3.unsat: raise Infeasible()       # the path condition itself is unsatisfiable: nothing was proved on it
+            res['ok_paths'] += 1
             if len(res['samples']) < 3 and c.vars:
                 try:
                     m = c.sample_model()
